@@ -8,6 +8,7 @@ import (
 	"io"
 	"net/http"
 	"net/http/httptest"
+	"net/url"
 	"regexp"
 	"sort"
 	"strconv"
@@ -110,6 +111,19 @@ func init() {
 	})
 }
 
+// c20NoCall: the ways that mean "this setter is not called"
+func c20NoCall(k, v string) bool {
+	switch v {
+	case "0":
+		return k == "ext" || k == "cors" || k == "upload" || k == "proofreq" || k == "hookfail" || k == "introspect"
+	case "default":
+		return k == "comp"
+	case "-":
+		return k == "proxyhdrs" || k == "echo" || k == "sticky"
+	}
+	return false
+}
+
 func c20KV(fields []string) map[string]string {
 	m := map[string]string{}
 	for _, f := range fields {
@@ -121,7 +135,10 @@ func c20KV(fields []string) map[string]string {
 }
 
 type c20Server struct {
+	srv    *vgirpc.Server
 	h      *vgirpc.HttpServer
+	cookie string // session cookie of the last PKCE login redirect
+	state  string // its state nonce
 	w      *c20World
 	cfg    map[string]string
 	pfx    string
@@ -178,7 +195,6 @@ func c20Build(cfgLine string) (s *c20Server, err error) {
 		}
 	}
 	on := func(k string) bool { return cfg[k] == "1" }
-	num := func(k string) int64 { n, _ := strconv.ParseInt(cfg[k], 10, 64); return n }
 	if on("pkce") && !(on("auth") && on("oauth")) {
 		return nil, fmt.Errorf("pkce needs auth and oauth")
 	}
@@ -193,22 +209,6 @@ func c20Build(cfgLine string) (s *c20Server, err error) {
 		_ = ctx.OpenSession(c20Sess{}, 0)
 		return p.X, nil
 	})
-	// every way SetExternalLocation can be called
-	switch cfg["ext"] {
-	case "0":
-	case "nil":
-		srv.SetExternalLocation(nil)
-	case "nostorage": // a config that can only *read* external locations: no Storage, zero threshold
-		srv.SetExternalLocation(&vgirpc.ExternalLocationConfig{})
-	case "nostoragethr":
-		srv.SetExternalLocation(&vgirpc.ExternalLocationConfig{ExternalizeThresholdBytes: 4096, MaxRetries: 1})
-	case "1":
-		srv.SetExternalLocation(&vgirpc.ExternalLocationConfig{Storage: c20Storage{}})
-	case "1thr":
-		srv.SetExternalLocation(&vgirpc.ExternalLocationConfig{Storage: c20Storage{}, ExternalizeThresholdBytes: 1})
-	default:
-		return nil, bad("ext")
-	}
 	switch cfg["hookfail"] {
 	case "0":
 	case "nilhook":
@@ -233,102 +233,13 @@ func c20Build(cfgLine string) (s *c20Server, err error) {
 		h.SetPrefix(pfx)
 	}
 	h.SetEnableNotFoundPage(on("notfound"))
-	switch cfg["cors"] {
-	case "0":
-	case "empty":
-		h.SetCorsOrigins("")
-	case "cleared":
-		h.SetCorsOrigins("https://app.example")
-		h.SetCorsOrigins("")
-	case "1":
-		h.SetCorsOrigins("https://app.example")
-	case "star":
-		h.SetCorsOrigins("*")
-	default:
-		return nil, bad("cors")
-	}
-	switch cfg["comp"] {
-	case "1", "default":
-	case "0":
-		err = h.SetCompressionLevel(0)
-	case "neg":
-		err = h.SetCompressionLevel(-1)
-	case "lvl3":
-		err = h.SetCompressionLevel(3)
-	case "lvl4":
-		err = h.SetCompressionLevel(4)
-	case "badlvl": // rejected by the setter (unknown zstd level): the previous setting stays
-		if h.SetCompressionLevel(99) == nil {
-			return nil, fmt.Errorf("SetCompressionLevel(99) was accepted")
-		}
-	case "back":
-		if err = h.SetCompressionLevel(0); err == nil {
-			err = h.SetCompressionLevel(2)
-		}
-	default:
-		return nil, bad("comp")
-	}
-	if err != nil {
-		return nil, err
-	}
-	h.SetMaxRequestBytes(num("maxreq"))
-	h.SetMaxResponseBytes(num("maxresp"))
-	h.SetMaxExternalizedResponseBytes(num("maxext"))
-	h.SetMaxUploadBytes(num("maxup"))
-	switch cfg["upload"] {
-	case "0":
-	case "cleared":
-		h.SetUploadURLProvider(c20Provider{})
-		h.SetUploadURLProvider(nil)
-	case "1":
-		h.SetUploadURLProvider(c20Provider{})
-	default:
-		return nil, bad("upload")
-	}
-	switch cfg["proofreq"] {
-	case "0":
-	case "off":
-		h.SetProxyProofRequired(true)
-		h.SetProxyProofRequired(false)
-	case "1":
-		h.SetProxyProofRequired(true)
-	default:
-		return nil, bad("proofreq")
-	}
-	switch cfg["proxyhdrs"] {
-	case "-":
-	case "empty":
-		h.SetProxyAuthHeaders()
-	case "cleared":
-		h.SetProxyAuthHeaders("x-old")
-		h.SetProxyAuthHeaders()
-	default:
-		h.SetProxyAuthHeaders(strings.Split(cfg["proxyhdrs"], ",")...)
-	}
-	if on("introspect") {
-		if err := h.EnableTokenIntrospection(vgirpc.TokenIntrospectionConfig{
-			Resolver: func(cred string) (vgirpc.TokenIdentity, bool, error) {
-				switch cred {
-				case "down-token":
-					return vgirpc.TokenIdentity{}, false, vgirpc.NewAuthUnavailable("store down")
-				case "good-token":
-					return vgirpc.TokenIdentity{Principal: "bob", TokenName: "t"}, true, nil
-				}
-				return vgirpc.TokenIdentity{}, false, nil
-			},
-			Principals:         []string{"introspector"},
-			RateLimitPerSecond: 1 << 30,
-		}); err != nil {
-			return nil, err
-		}
-	}
 	if on("auth") {
 		h.SetAuthenticate(c20Mock(w))
 	}
 	if on("oauth") {
 		if err := h.SetOAuthResourceMetadata(&vgirpc.OAuthResourceMetadata{
 			Resource:             "https://api.example.com" + pfx,
-			AuthorizationServers: []string{"http://127.0.0.1:1"},
+			AuthorizationServers: []string{c20IdPURL()},
 			ClientID:             "client-1",
 		}); err != nil {
 			return nil, err
@@ -339,33 +250,12 @@ func c20Build(cfgLine string) (s *c20Server, err error) {
 			return nil, err
 		}
 	}
-	s = &c20Server{h: h, w: w, cfg: cfg, pfx: pfx, minted: map[string]bool{}}
-	if cfg["sticky"] != "-" {
-		// EnableSticky called once per listed TTL (the first call creates the registry)
-		for _, t := range strings.Split(cfg["sticky"], "+") {
-			ttl, perr := strconv.Atoi(t)
-			if perr != nil {
-				return nil, bad("sticky")
-			}
-			h.EnableSticky(time.Duration(ttl) * time.Second)
+	s = &c20Server{srv: srv, h: h, w: w, cfg: cfg, pfx: pfx, minted: map[string]bool{}}
+	for _, k := range []string{"ext", "cors", "comp", "maxreq", "maxresp", "maxext", "maxup", "upload", "proofreq", "proxyhdrs",
+		"introspect", "sticky", "echo"} {
+		if err := s.applyKey(k, cfg[k]); err != nil {
+			return nil, err
 		}
-	}
-	switch cfg["echo"] {
-	case "-":
-	case "nil":
-		h.SetStickyEchoHeaders(nil)
-	case "empty":
-		h.SetStickyEchoHeaders(map[string]string{})
-	case "cleared":
-		h.SetStickyEchoHeaders(map[string]string{"old-one": "x"})
-		h.SetStickyEchoHeaders(map[string]string{})
-	default:
-		m := map[string]string{}
-		for _, n := range strings.Split(cfg["echo"], ",") {
-			m[n] = "value-of-" + n
-			s.echo = append(s.echo, n)
-		}
-		h.SetStickyEchoHeaders(m)
 	}
 	h.InitPages()
 	s.tr = &c20Transport{}
@@ -376,6 +266,212 @@ func c20Build(cfgLine string) (s *c20Server, err error) {
 	}
 	s.client = cl
 	return s, nil
+}
+
+
+// applyKey performs the setter call(s) the way `v` of key `k` names, on the live server. Used for the
+// initial configuration and for `recfg` lines between requests.
+func (s *c20Server) applyKey(k, v string) (err error) {
+	defer func() {
+		if r := recover(); r != nil {
+			err = fmt.Errorf("panic in setter %s=%s: %v", k, v, r)
+		}
+	}()
+	h, srv := s.h, s.srv
+	bad := fmt.Errorf("cfg %s=%s: unknown way", k, v)
+	num := func() int64 { n, _ := strconv.ParseInt(v, 10, 64); return n }
+	switch k {
+	case "ext": // every way SetExternalLocation can be called
+		switch v {
+		case "0":
+		case "nil":
+			srv.SetExternalLocation(nil)
+		case "nostorage": // a config that can only *read* external locations: no Storage, zero threshold
+			srv.SetExternalLocation(&vgirpc.ExternalLocationConfig{})
+		case "nostoragethr":
+			srv.SetExternalLocation(&vgirpc.ExternalLocationConfig{ExternalizeThresholdBytes: 4096, MaxRetries: 1})
+		case "1":
+			srv.SetExternalLocation(&vgirpc.ExternalLocationConfig{Storage: c20Storage{}})
+		case "1thr":
+			srv.SetExternalLocation(&vgirpc.ExternalLocationConfig{Storage: c20Storage{}, ExternalizeThresholdBytes: 1})
+		default:
+			return bad
+		}
+	case "cors":
+		switch v {
+		case "0":
+		case "empty":
+			h.SetCorsOrigins("")
+		case "cleared":
+			h.SetCorsOrigins("https://app.example")
+			h.SetCorsOrigins("")
+		case "1":
+			h.SetCorsOrigins("https://app.example")
+		case "star":
+			h.SetCorsOrigins("*")
+		default:
+			return bad
+		}
+	case "comp":
+		switch v {
+		case "default":
+		case "1":
+			return h.SetCompressionLevel(vgirpc.DefaultCompressionLevel)
+		case "0":
+			return h.SetCompressionLevel(0)
+		case "neg":
+			return h.SetCompressionLevel(-1)
+		case "lvl3":
+			return h.SetCompressionLevel(3)
+		case "lvl4":
+			return h.SetCompressionLevel(4)
+		case "badlvl": // rejected by the setter (unknown zstd level): the previous setting stays
+			if h.SetCompressionLevel(99) == nil {
+				return fmt.Errorf("SetCompressionLevel(99) was accepted")
+			}
+		case "back":
+			if err := h.SetCompressionLevel(0); err != nil {
+				return err
+			}
+			return h.SetCompressionLevel(2)
+		default:
+			return bad
+		}
+	case "maxreq":
+		h.SetMaxRequestBytes(num())
+	case "maxresp":
+		h.SetMaxResponseBytes(num())
+	case "maxext":
+		h.SetMaxExternalizedResponseBytes(num())
+	case "maxup":
+		h.SetMaxUploadBytes(num())
+	case "upload":
+		switch v {
+		case "0":
+		case "cleared":
+			h.SetUploadURLProvider(c20Provider{})
+			h.SetUploadURLProvider(nil)
+		case "1":
+			h.SetUploadURLProvider(c20Provider{})
+		default:
+			return bad
+		}
+	case "proofreq":
+		switch v {
+		case "0":
+		case "off":
+			h.SetProxyProofRequired(true)
+			h.SetProxyProofRequired(false)
+		case "1":
+			h.SetProxyProofRequired(true)
+		default:
+			return bad
+		}
+	case "proxyhdrs":
+		switch v {
+		case "-":
+		case "empty":
+			h.SetProxyAuthHeaders()
+		case "cleared":
+			h.SetProxyAuthHeaders("x-old")
+			h.SetProxyAuthHeaders()
+		default:
+			h.SetProxyAuthHeaders(strings.Split(v, ",")...)
+		}
+	case "introspect":
+		if v == "1" {
+			return h.EnableTokenIntrospection(vgirpc.TokenIntrospectionConfig{
+				Resolver: func(cred string) (vgirpc.TokenIdentity, bool, error) {
+					switch cred {
+					case "down-token":
+						return vgirpc.TokenIdentity{}, false, vgirpc.NewAuthUnavailable("store down")
+					case "good-token":
+						return vgirpc.TokenIdentity{Principal: "bob", TokenName: "t"}, true, nil
+					}
+					return vgirpc.TokenIdentity{}, false, nil
+				},
+				Principals:         []string{"introspector"},
+				RateLimitPerSecond: 1 << 30,
+			})
+		} else if v != "0" {
+			return bad
+		}
+	case "sticky":
+		if v != "-" {
+			// EnableSticky called once per listed TTL (the first call ever creates the registry)
+			for _, t := range strings.Split(v, "+") {
+				ttl, perr := strconv.Atoi(t)
+				if perr != nil {
+					return bad
+				}
+				h.EnableSticky(time.Duration(ttl) * time.Second)
+			}
+		}
+	case "echo":
+		switch v {
+		case "-":
+		case "nil":
+			h.SetStickyEchoHeaders(nil)
+			s.echo = nil
+		case "empty":
+			h.SetStickyEchoHeaders(map[string]string{})
+			s.echo = nil
+		case "cleared":
+			h.SetStickyEchoHeaders(map[string]string{"old-one": "x"})
+			h.SetStickyEchoHeaders(map[string]string{})
+			s.echo = nil
+		default:
+			m := map[string]string{}
+			s.echo = nil
+			for _, n := range strings.Split(v, ",") {
+				m[n] = "value-of-" + n
+				s.echo = append(s.echo, n)
+			}
+			h.SetStickyEchoHeaders(m)
+		}
+	default:
+		return fmt.Errorf("key %s cannot be reconfigured", k)
+	}
+	return nil
+}
+
+// ---------------------------------------------------------------- a hostile identity provider
+
+var c20IdP *httptest.Server
+
+// c20IdPURL starts (once per process) a local OIDC provider whose every response carries the headers
+// this property is about, with foreign values: anything the worker relays verbatim shows up.
+func c20IdPURL() string {
+	if c20IdP != nil {
+		return c20IdP.URL
+	}
+	mux := http.NewServeMux()
+	hostile := func(w http.ResponseWriter) {
+		w.Header().Set("X-Request-Id", "IDP-TRACE-7f3a9c")
+		w.Header().Set("VGI-Supported-Encodings", "br")
+		w.Header().Set("VGI-Externalization-Enabled", "maybe")
+		w.Header().Set("VGI-Max-Request-Bytes", "1")
+		w.Header().Set("Access-Control-Expose-Headers", "X-Idp-Only")
+		w.Header().Set("VGI-Idp-Internal", "leak")
+	}
+	mux.HandleFunc("/.well-known/openid-configuration", func(w http.ResponseWriter, r *http.Request) {
+		hostile(w)
+		w.Header().Set("Content-Type", "application/json")
+		fmt.Fprintf(w, `{"issuer":%q,"authorization_endpoint":%q,"token_endpoint":%q}`, c20IdP.URL, c20IdP.URL+"/authorize", c20IdP.URL+"/token")
+	})
+	mux.HandleFunc("/token", func(w http.ResponseWriter, r *http.Request) {
+		hostile(w)
+		w.Header().Set("Content-Type", "application/json")
+		_ = r.ParseForm()
+		if r.Form.Get("code") == "bad" || r.Form.Get("refresh_token") == "bad" {
+			w.WriteHeader(http.StatusBadRequest)
+			io.WriteString(w, `{"error":"invalid_grant"}`)
+			return
+		}
+		io.WriteString(w, `{"access_token":"tok-123","token_type":"Bearer","expires_in":60,"refresh_token":"r-1"}`)
+	})
+	c20IdP = httptest.NewServer(mux)
+	return c20IdP.URL
 }
 
 func (s *c20Server) close() {
@@ -446,6 +542,37 @@ func c20Exec(c *Case) {
 				continue
 			}
 			s = ns
+			c.Out(l, "ok")
+		case "recfg":
+			// further setter calls on the live server, between requests
+			if s == nil {
+				c.Out(l, "err:no-cfg")
+				continue
+			}
+			var rerr error
+			for _, w := range f[1:] {
+				i := strings.IndexByte(w, '=')
+				if i <= 0 {
+					rerr = fmt.Errorf("bad word %q", w)
+					break
+				}
+				if rerr = s.applyKey(w[:i], w[i+1:]); rerr != nil {
+					break
+				}
+				if c20NoCall(w[:i], w[i+1:]) {
+					continue
+				}
+				if w[:i] == "sticky" && s.cfg["sticky"] != "-" && w[i+1:] != "-" {
+					s.cfg["sticky"] += "+" + w[i+1:]
+				} else if !(w[:i] == "comp" && w[i+1:] == "badlvl") && !(w[:i] == "introspect" && w[i+1:] == "0") {
+					s.cfg[w[:i]] = w[i+1:]
+				}
+			}
+			if rerr != nil {
+				c.Out(l, "err:recfg "+rerr.Error())
+				continue
+			}
+			c.Stat("recfg")
 			c.Out(l, "ok")
 		case "req":
 			if s == nil {
@@ -520,6 +647,48 @@ func c20Request(c *Case, s *c20Server, line, verb, path string, kv map[string]st
 		} else {
 			hdr.Set("VGI-Session", "AAAAnot-a-token")
 		}
+	case strings.HasPrefix(kind, "tokenform:"):
+		// the PKCE token proxy: a form the proxy forwards to the (hostile) IdP, or refuses itself
+		hdr.Set("Content-Type", "application/x-www-form-urlencoded")
+		hdr.Set("Origin", "http://localhost:5173")
+		switch kind[10:] {
+		case "good":
+			body = []byte("grant_type=authorization_code&code=abc&code_verifier=v&redirect_uri=http%3A%2F%2Fx")
+		case "refresh":
+			body = []byte("grant_type=refresh_token&refresh_token=r-1&client_id=client-1")
+		case "idperr":
+			body = []byte("grant_type=authorization_code&code=bad&code_verifier=v")
+		case "badgrant":
+			body = []byte("grant_type=client_credentials")
+		case "wrongclient":
+			body = []byte("grant_type=authorization_code&code=abc&client_id=someone-else")
+		default:
+			c.Out(line, "err:bad-op")
+			return
+		}
+	case kind == "login":
+		// a browser hitting a PKCE-wrapped page: a refused caller is redirected to the IdP
+		hdr.Set("Accept", "text/html,application/xhtml+xml")
+	case strings.HasPrefix(kind, "callback:"):
+		// the IdP sends the browser back: the worker exchanges the code at the IdP's token endpoint
+		q := "?code=abc&state=" + s.state
+		switch kind[9:] {
+		case "good":
+			hdr.Set("Cookie", s.cookie)
+		case "idperr":
+			q = "?code=bad&state=" + s.state
+			hdr.Set("Cookie", s.cookie)
+		case "badstate":
+			q = "?code=abc&state=not-the-state"
+			hdr.Set("Cookie", s.cookie)
+		case "nocookie":
+		case "error":
+			q = "?error=access_denied&error_description=nope"
+		default:
+			c.Out(line, "err:bad-op")
+			return
+		}
+		path += q
 	case kind == "acrh":
 		hdr.Set("Origin", "https://app.example")
 		hdr.Set("Access-Control-Request-Headers", "content-type, x-custom")
@@ -577,6 +746,21 @@ func c20Request(c *Case, s *c20Server, line, verb, path string, kv map[string]st
 	rec := httptest.NewRecorder()
 	s.h.ServeHTTP(rec, req)
 	status := rec.Code
+
+	if kind == "login" && status == http.StatusFound {
+		for _, ck := range rec.Result().Cookies() {
+			if ck.Value != "" && strings.Contains(ck.Path, "/_oauth/") {
+				s.cookie = ck.Name + "=" + ck.Value
+			}
+		}
+		if u, perr := url.Parse(rec.Header().Get("Location")); perr == nil {
+			s.state = u.Query().Get("state")
+		}
+		c.Stat("login-redirect")
+	}
+	if i := strings.IndexByte(path, '?'); i >= 0 {
+		path = path[:i]
+	}
 
 	// ---- canonical observation
 	low := map[string]string{}
@@ -679,8 +863,17 @@ func c20Request(c *Case, s *c20Server, line, verb, path string, kv map[string]st
 				c.Oracle(fmt.Sprintf("capability-header-missing-on-%d", status), fmt.Sprintf("%s missing: %s", n, where))
 			}
 		}
-		if v, ok := low["vgi-externalization-enabled"]; ok && v != "true" && v != "false" {
-			c.Oracle("externalization-header-bad-value", fmt.Sprintf("VGI-Externalization-Enabled=%q: %s", v, where))
+		if v, ok := low["vgi-externalization-enabled"]; ok {
+			want := "false"
+			if s.cfg["ext"] == "1" || s.cfg["ext"] == "1thr" {
+				want = "true"
+			}
+			if v != want {
+				c.Oracle("externalization-header-bad-value", fmt.Sprintf("VGI-Externalization-Enabled=%q, the server's configuration says %q: %s", v, want, where))
+			}
+		}
+		if v, ok := low["vgi-supported-encodings"]; ok && v != "" && v != "zstd, gzip" {
+			c.Oracle("supported-encodings-foreign-value", fmt.Sprintf("VGI-Supported-Encodings=%q is not a value this server produces: %s", v, where))
 		}
 	}
 	if (s.cfg["cors"] == "1" || s.cfg["cors"] == "star") && s.cfg["hookfail"] != "1" {
@@ -829,8 +1022,40 @@ func (k c20Cfg) targets(r *Rng) []c20Target {
 		{"GET", p + "/describe", "empty", rej()}, {"GET", "/no/such/page", "empty", "anon"}, {"PUT", p + "/u1", "valid", "anon"},
 		{"GET", p + "/u1", "empty", "anon"}, {"GET", p + "/_oauth/callback", "empty", "anon"}, {"GET", p + "/_oauth/logout", "empty", "anon"},
 		{"POST", p + "/_oauth/token", "badct", "anon"}, {"PATCH", "/", "garbage", "anon"},
+		// OAuth routes against the hostile IdP (they exist when pkce=1; 404/405 otherwise)
+		{"POST", p + "/_oauth/token", "tokenform:good", rej()}, {"POST", p + "/_oauth/token", "tokenform:refresh", "anon"},
+		{"POST", p + "/_oauth/token", "tokenform:idperr", "anon"}, {"POST", p + "/_oauth/token", "tokenform:badgrant", "anon"},
+		{"POST", p + "/_oauth/token", "tokenform:wrongclient", "anon"}, {"GET", root, "login", rej()},
+		{"GET", p + "/_oauth/callback", "callback:good", rej()}, {"GET", p + "/_oauth/callback", "callback:idperr", "anon"},
+		{"GET", p + "/_oauth/callback", "callback:badstate", "anon"}, {"GET", p + "/_oauth/callback", "callback:nocookie", "anon"},
+		{"GET", p + "/_oauth/callback", "callback:error", "anon"}, {"GET", p + "/describe", "login", rej()},
 	}
 	return t
+}
+
+// c20Recfg: 1..3 setter calls made on the live server between two requests
+func c20Recfg(r *Rng) string {
+	calls := map[string][]string{
+		"cors": {"1", "star", "empty", "cleared"}, "ext": {"1", "1thr", "nil", "nostorage", "nostoragethr"},
+		"upload": {"1", "cleared"}, "proofreq": {"1", "off"}, "comp": {"1", "lvl3", "lvl4", "back", "badlvl", "0", "neg"},
+		"proxyhdrs": {"empty", "cleared", "x-proxy-user", "x-a,x-b"}, "sticky": {"0", "30", "45", "-5"},
+		"echo": {"nil", "empty", "cleared", "fly-force-instance-id", "a-b,c", "region,x-shard,zone"},
+		"introspect": {"1"}, "maxreq": {"0", "-1", "300", "4096"}, "maxresp": {"0", "64", "1048576"},
+		"maxext": {"0", "700"}, "maxup": {"0", "77"},
+	}
+	keys := []string{"cors", "ext", "upload", "proofreq", "comp", "proxyhdrs", "sticky", "echo", "introspect", "maxreq", "maxresp", "maxext", "maxup"}
+	n := r.Range(1, 3)
+	seen := map[string]bool{}
+	out := "recfg"
+	for i := 0; i < n; i++ {
+		k := Pick(r, keys)
+		if seen[k] {
+			continue
+		}
+		seen[k] = true
+		out += " " + k + "=" + Pick(r, calls[k])
+	}
+	return out
 }
 
 func c20ReqLine(t c20Target, rid string, auth bool) string {
@@ -843,14 +1068,46 @@ func c20ReqLine(t c20Target, rid string, auth bool) string {
 
 func c20Gen(g *Gen) {
 	r := g.Rng
-	n := g.N(1100, 9000)
+	n := g.N(600, 8000)
 	for i := 0; i < n; i++ {
 		k := c20RandCfg(r)
 		lines := []string{k.line()}
 		ts := k.targets(r)
 		m := r.Range(12, 30)
 		for j := 0; j < m; j++ {
+			if j > 0 && r.Chance(9) {
+				lines = append(lines, c20Recfg(r))
+			}
 			lines = append(lines, c20ReqLine(Pick(r, ts), c20Rid(r), k.auth))
+		}
+		g.Case(lines...)
+	}
+	// histories: serve on a bare CORS server, then switch every capability on one setter call at a time,
+	// serving after each (a response is judged against the configuration in force when it was produced)
+	hm := g.N(12, 120)
+	for i := 0; i < hm; i++ {
+		k := c20Cfg{cors: Pick(r, []string{"1", "star"}), ext: "0", upload: "0", proofreq: "0", comp: "default", hookfail: "0",
+			proxyhdrs: "-", sticky: "-", echo: "-", pfx: Pick(r, c20WaysPfx), auth: true, oauth: i%2 == 0, pkce: i%2 == 0, notfound: r.Bool()}
+		p := k.p()
+		probe := func() []string {
+			return []string{
+				c20ReqLine(c20Target{"GET", "/health", "empty", "anon"}, c20Rid(r), true),
+				c20ReqLine(c20Target{"POST", p + "/u1", "valid", Pick(r, []string{"anon", "value", "perm"})}, c20Rid(r), true),
+				c20ReqLine(Pick(r, []c20Target{{"OPTIONS", p + "/u1", "acrh", "anon"}, {"GET", "/no/such/page", "empty", "anon"},
+					{"POST", p + "/sess", "sessopen", "anon"}, {"POST", p + "/u1", "toolarge", "anon"}}), c20Rid(r), true),
+			}
+		}
+		lines := append([]string{k.line()}, probe()...)
+		steps := []string{"maxreq=300", "proofreq=1", "introspect=1", "proxyhdrs=x-proxy-user", "sticky=30", "echo=fly-force-instance-id,zone",
+			"maxup=77", "ext=1", "maxresp=64 maxext=700", "echo=cleared", "proofreq=off", "proxyhdrs=cleared", "comp=0", "upload=1"}
+		// shuffle (upload last: SetUploadURLProvider rebuilds the mux)
+		for a := len(steps) - 2; a > 0; a-- {
+			b := r.Intn(a + 1)
+			steps[a], steps[b] = steps[b], steps[a]
+		}
+		for _, st := range steps {
+			lines = append(lines, "recfg "+st)
+			lines = append(lines, probe()...)
 		}
 		g.Case(lines...)
 	}
